@@ -260,7 +260,7 @@ func (m *Master) Ack() {
 
 // AckWait is how long a lock-step master waits for the handler before it
 // goes on anyway (pacing is best effort; it never decides a verdict).
-var AckWait = 1500 * time.Millisecond
+var AckWait = 400 * time.Millisecond
 
 // Release lets a master parked in FHold continue.
 func (m *Master) Release() {
